@@ -1,4 +1,5 @@
 """C10 -- incomplete rows are handled exactly as documented."""
+import re
 from fractions import Fraction
 
 import numpy as np
@@ -15,7 +16,8 @@ RULE = ('random mixed/categorical frames with missing values in exposure, covari
         'depending on treatment and covariates): every keep-missing-outcome estimator on the frame vs the frame with rows missing '
         'exposure or a covariate deleted; every drop-all estimator vs its complete-case run; the rows actually analysed vs the '
         'Coq gate; IPTW and TMLE with saturated treatment and missingness models vs the Coq-evaluated standardisation of '
-        'observed-outcome means over all retained rows; non-trivial = distinct (estimator, data, pattern)')
+        'observed-outcome means over all retained rows; a third of the deletion frames each under plain column names and under two '
+        'schemes of overlapping names (a covariate name contained in the outcome name, ...); non-trivial = distinct (estimator, data, pattern)')
 TRUSTED = ['pandas dropna / isna semantics used by check_input_data (modelled by Model.Gate, compared on every case)',
            'saturated GLM fits return cell means/proportions (validated per case)']
 
@@ -33,62 +35,81 @@ def punch(df, rng, cols, frac_=0.08):
     return df
 
 
-def estimates(kind, df, meta):
+NAME_SCHEMES = [
+    None,
+    # a covariate whose name is contained in the outcome's name (cd4 / cd4_wk45), and other overlapping names
+    {'Y': 'cd4_wk45', 'W0': 'cd4', 'W1': 'wk', 'C0': 'c', 'C1': 'cd', 'A': 'art'},
+    {'Y': 'dead', 'W0': 'dead_prev', 'W1': 'ad', 'C0': 'treat_grp', 'C1': 'e', 'A': 'treat'},
+]
+
+
+def rename(text, names):
+    return re.sub(r'\b(W0|W1|C0|C1|A|Y)\b', lambda m: names.get(m.group(1), m.group(1)), text) if names else text
+
+
+def estimates(kind, df, meta, names=None):
+    """names: optional logical -> actual column names (the estimators must not care what the columns are called)"""
     from zepid.causal.ipw import IPTW, StochasticIPTW
     from zepid.causal.gformula import TimeFixedGFormula
     from zepid.causal.doublyrobust import AIPTW, TMLE, StochasticTMLE
     from zepid.causal.snm import GEstimationSNM
-    rhs = meta['rhs']
+    if names:
+        df = df.rename(columns=names)
+    A, Y = rename('A', names), rename('Y', names)
+    rhs = rename(meta['rhs'], names)
+    arhs = A + ' + ' + rhs
     binary = meta['outcome'] == 'binary'
     if kind == 'IPTW':
-        o = IPTW(df, 'A', 'Y')
+        o = IPTW(df, A, Y)
         o.treatment_model(rhs, print_results=False)
         if o._miss_flag:
-            o.missing_model('A + ' + rhs, print_results=False)
-        o.marginal_structural_model('A')
+            o.missing_model(arhs, print_results=False)
+        o.marginal_structural_model(A)
         o.fit()
         t = o.risk_difference['RD'] if binary else o.average_treatment_effect['ATE']
         return [float(t.iloc[1])], o.df
     if kind == 'AIPTW':
-        o = AIPTW(df, 'A', 'Y')
+        o = AIPTW(df, A, Y)
         o.exposure_model(rhs, print_results=False)
         if o._miss_flag:
-            o.missing_model('A + ' + rhs, print_results=False)
-        o.outcome_model('A + ' + rhs, print_results=False)
+            o.missing_model(arhs, print_results=False)
+        o.outcome_model(arhs, print_results=False)
         o.fit()
-        return [float(o.risk_difference if binary else o.average_treatment_effect)], o.df
+        return [float(o.risk_difference if binary else o.average_treatment_effect),
+                float(o.risk_difference_se if binary else o.average_treatment_effect_se)], o.df
     if kind == 'TMLE':
-        o = TMLE(df, 'A', 'Y')
+        o = TMLE(df, A, Y)
         o.exposure_model(rhs, print_results=False)
         if o._miss_flag:
-            o.missing_model('A + ' + rhs, print_results=False)
-        o.outcome_model('A + ' + rhs, print_results=False)
+            o.missing_model(arhs, print_results=False)
+        o.outcome_model(arhs, print_results=False)
         o.fit()
-        return [float(o.risk_difference if binary else o.average_treatment_effect)], o.df
+        return [float(o.risk_difference if binary else o.average_treatment_effect),
+                float(o.risk_difference_se if binary else o.average_treatment_effect_se)], o.df
     if kind == 'TimeFixedGFormula':
-        o = TimeFixedGFormula(df, 'A', 'Y', outcome_type='binary' if binary else 'normal')
-        o.outcome_model('A + ' + rhs, print_results=False)
+        o = TimeFixedGFormula(df, A, Y, outcome_type='binary' if binary else 'normal')
+        o.outcome_model(arhs, print_results=False)
         o.fit('all')
         r1 = float(o.marginal_outcome)
         o.fit('none')
-        return [r1, float(o.marginal_outcome)], o.gf
+        return [r1, float(o.marginal_outcome), float(len(o.gf))], o.gf
     if kind == 'GEstimationSNM':
-        o = GEstimationSNM(df, exposure='A', outcome='Y')
+        o = GEstimationSNM(df, exposure=A, outcome=Y)
         o.exposure_model(rhs, print_results=False)
-        o.structural_nested_model('A')
+        o.structural_nested_model(A)
         if o._miss_flag:
-            o.missing_model('A + ' + rhs, print_results=False)
+            o.missing_model(arhs, print_results=False)
         o.fit()
         return [float(x) for x in o.psi], o.df
     if kind == 'StochasticIPTW':
-        o = StochasticIPTW(df, 'A', 'Y')
+        o = StochasticIPTW(df, A, Y)
         o.treatment_model(rhs, print_results=False)
         o.fit(p=0.4)
         return [float(o.marginal_outcome)], o.df
     if kind == 'StochasticTMLE':
-        o = StochasticTMLE(df, 'A', 'Y')
+        o = StochasticTMLE(df, A, Y)
         o.exposure_model(rhs)
-        o.outcome_model('A + ' + rhs)
+        o.outcome_model(arhs)
         o.fit(p=1.0, samples=3, seed=5)
         return [float(o.marginal_outcome)], o.df
     raise AssertionError(kind)
@@ -122,8 +143,10 @@ def deletion_part(ctx, fails):
         dfm = punch(df, ctx.rng, ['A'] + covs[:ctx.rng.randint(1, len(covs))])
         deleted = dfm.dropna(subset=['A'] + covs)
         cc = dfm.dropna()
+        names = NAME_SCHEMES[(i // 2) % len(NAME_SCHEMES)]
         payload = {'part': 'deletion', 'data': {c: [None if (isinstance(v, float) and v != v) else v for v in dfm[c].tolist()] for c in dfm.columns},
-                   'meta': meta}
+                   'meta': meta, 'names': names}
+        ctx.count('column-names:' + ('plain' if not names else names['Y'] + '/' + names['W0']))
         ctx.evaluations += 1
         ctx.count('pattern:' + pattern)
         ctx.nontriv([otype, pattern, dfm['Y'].fillna(-9).tolist()[:10]])
@@ -133,8 +156,8 @@ def deletion_part(ctx, fails):
                 pass
             ref_df = deleted if kind in KEEP else cc
             try:
-                a, adf = estimates(kind, dfm, meta)
-                b, _ = estimates(kind, ref_df.reset_index(drop=True) if ctx.rng.random() < 0.5 else ref_df, meta)
+                a, adf = estimates(kind, dfm, meta, names)
+                b, _ = estimates(kind, ref_df.reset_index(drop=True) if ctx.rng.random() < 0.5 else ref_df, meta, names)
             except Exception as e:   # noqa
                 fails.append((len(dfm), '%s.missing.raises' % kind, '%s raised %s: %s (pattern %s)' % (kind, type(e).__name__, str(e)[:100], pattern), payload))
                 continue
